@@ -215,6 +215,32 @@ def check_decl(T, cls, d, acc, pairwise, regs):
                         "%s on <%s> holding %s gives %s (%s)" % (gm, tT, _p(seq), _p(after), list(errs)[:1]),
                         {"T": T, "tau": tau, "X": X, "before": seq, "method": gm},
                     )
+            # 'remove removes all of that kind' / 'change to leaves exactly one member', also from a parent that (invalidly, as
+            # damaged or hand-edited documents do) holds SEVERAL members of the group: the valid rest of one context plus every
+            # other member in schema order.  Only the members are judged here (the rest of the content was valid and stays).
+            base = next((seq for _, seq in ctxgen.contexts_without(p, X, members) if not xsdkit.skeleton_errors(None, tau, child_tags=seq)), None)
+            if base is not None:
+                others = [mtag for mtag in members if mtag != X]
+                k = next(i for i, t in enumerate(base) if t in members)
+                crowded = [t for t in base[:k] if t not in members] + others + [t for t in base[k:] if t not in members]
+                for meth in (gm, "_remove_" + (d.get("group") or "\x00")):
+                    if not hasattr(cls, meth):
+                        continue
+                    parent = _mk(oxml_parser, T, crowded)
+                    try:
+                        getattr(parent, meth)()
+                    except Exception as e:  # noqa
+                        acc.count("method_raised:%s" % type(e).__name__)
+                        continue
+                    left = [t for t in (c.tag for c in parent if isinstance(c.tag, str)) if t in members]
+                    acc.count("crowded_choice_groups_checked")
+                    want = [X] if meth == gm else []
+                    if left != want:
+                        acc.violation(
+                            ("change-to-from-several:%s>%s" if meth == gm else "group-remove-leaves:%s>%s") % (tT, tX),
+                            "%s on <%s> holding the group members %s leaves %s, expected %s" % (meth, tT, _p(others), _p(left), _p(want)),
+                            {"T": T, "tau": tau, "X": X, "before": crowded, "method": meth},
+                        )
     if types and not permitted_somewhere:
         acc.count("decls_child_not_in_any_schema_type")
         acc.note("%s (as <%s>) declares child %s that no schema type of the tag permits" % (cls.__name__, tT, tX))
